@@ -449,7 +449,10 @@ def f11_compile_purity(ctx, repo):
                 if h.cls is None or h.node is f.node or h.node.name in PURITY_METHODS or h.node.name in NOT_HELPERS or id(h.node) in seen_h:
                     continue
                 seen_h.add(id(h.node))
-                aud = HELPER_PURITY_AUDIT.get((h.mod.rel, h.node.name), {})
+                aud = dict(HELPER_PURITY_AUDIT.get((h.mod.rel, h.node.name), {}))
+                # a block extracted from the compile method itself carries that method's audited stores with it
+                for a_, why_ in PURITY_AUDIT.get((rel, q.split("#")[0]), {}).items():
+                    aud.setdefault(a_, why_ + " (audited for the calling method)")
                 for a in sorted(self_stores(h.node)):
                     ok = a in aud or "*" in aud
                     ctx.ob("F11h", h.where, f"self.{a} stored (reached from {q.split('#')[0]})", ok, ("audited: " + (aud.get(a) or aud.get("*"))) if ok else "a helper on the compile/dump path writes an attribute on the table object (saving would change the font)")
